@@ -175,6 +175,10 @@ func (reorg *Reorg) Read(buf *bytes.Buffer) error {
 		return err
 	}
 
+	if uint64(count)*wire.MaxBlockHeaderPayload > uint64(buf.Len()) {
+		return fmt.Errorf("Reorg block count %d exceeds remaining data", count)
+	}
+
 	reorg.Blocks = make([]ReorgBlock, count)
 	for i, _ := range reorg.Blocks {
 		if err := reorg.Blocks[i].Read(buf); err != nil {
@@ -213,6 +217,10 @@ func (block *ReorgBlock) Read(buf *bytes.Buffer) error {
 	var count uint32
 	if err := binary.Read(buf, binary.LittleEndian, &count); err != nil {
 		return err
+	}
+
+	if uint64(count)*bitcoin.Hash32Size > uint64(buf.Len()) {
+		return fmt.Errorf("Reorg tx count %d exceeds remaining data", count)
 	}
 
 	block.TxIds = make([]bitcoin.Hash32, count)
